@@ -7,6 +7,7 @@ mod grid;
 mod pairs;
 mod props;
 mod run;
+mod selftest;
 mod util;
 
 use run::{Runner, Verdict};
@@ -54,6 +55,10 @@ fn main() {
                 }
             };
             std::process::exit(code);
+        }
+        "selftest" => {
+            let out = arg_after(&args, "--out", "/verif/target/selftest");
+            std::process::exit(selftest::run(&out));
         }
         "replay" => {
             let txt = std::fs::read_to_string(&args[2]).expect("cannot read replay file");
